@@ -6,6 +6,7 @@ import (
 	"os"
 
 	"github.com/tetratelabs/wazero/verifharness/boundary"
+	"github.com/tetratelabs/wazero/verifharness/cacheconf"
 	"github.com/tetratelabs/wazero/verifharness/calls"
 	"github.com/tetratelabs/wazero/verifharness/cfgreplay"
 	"github.com/tetratelabs/wazero/verifharness/fcache"
@@ -45,6 +46,8 @@ var cmds = map[string]func([]string){
 	"trace-boundary":      boundary.Main,
 	"run-termination":     termination.Main,
 	"termination-child":   termination.Child,
+	"run-cacheconf":       cacheconf.Main,
+	"cacheconf-child":     cacheconf.Child,
 	"fc-child":            fcache.Child,
 	"fc-replay":           fcache.ReplayProc,
 	"fc-gate":             fcache.ReplayGate,
